@@ -137,6 +137,17 @@ def real_parsed(w, st):
     return p
 
 
+def forget_unusable_inodes(H, st0, parsed):
+    """on a disk whose recorded inodes are not usable (no / changed UUID) the tool keeps the inode numbers only in memory and does not
+    save the content file for their sake (scan.c: "we don't even save them"): they are not part of the comparison"""
+    w = H.w
+    for k, d in enumerate(w.arr.disks):
+        if k < len(parsed['disks']) and parsed['disks'][k] is not None and not w.inodes_usable(st0, d):
+            for f in parsed['disks'][k]['files']:
+                f['inode'] = 0
+    return parsed
+
+
 def flush_drift(H):
     """report the model/real disagreement noted by sync_with_model -- called by the checks AFTER their oracles judged the real
     behaviour: a run that violates the property is reported as such, a disagreement on a run that satisfies it is MODEL-DRIFT"""
@@ -153,7 +164,7 @@ def note_drift(H, tag, what, **kw):
         H.pending_drift = (tag, what, kw)
 
 
-def sync_with_model(H, st0, lst, opts, nocopy=False, prehash=False, expect_fail=None):
+def sync_with_model(H, st0, lst, opts, nocopy=False, prehash=False, expect_fail=None, nokill=False, fs_after=False, real_opts=()):
     """(1) a real sync killed by the shim before its first parity write leaves the post-scan state in the content file;
     (2) the real sync with the scenario's options; the model predicts both states from st0 + listing (+ the data for (2)).
     Returns the Result of (2) (a disagreement is left in H.pending_drift for flush_drift), or False after a model failure."""
@@ -170,7 +181,7 @@ def sync_with_model(H, st0, lst, opts, nocopy=False, prehash=False, expect_fail=
     base_toks = w.ser_base()
     st1 = None
     killed = False
-    if not prehash:
+    if not prehash and not nokill:
         r0 = w.run('sync', *extra, shim_env={'VSHIM_KILL_ON': 'pwrite:.parity:1:before'}); H.ncmd += 1
         killed = r0.rc in (-9, 137)
         st1 = w.content()
@@ -188,7 +199,7 @@ def sync_with_model(H, st0, lst, opts, nocopy=False, prehash=False, expect_fail=
         if m['aborted']:
             note('drift_abort', 'the scan model reaches an os_abort path of scan.c, the real sync exits %d' % r0.rc, request=m['request'][:6000])
             m = None
-        d = first_diff(m['post' if killed else 'final'], real_parsed(w, st1), w.names) if m else None
+        d = first_diff(forget_unusable_inodes(H, st0, m['post' if killed else 'final']), forget_unusable_inodes(H, st0, real_parsed(w, st1)), w.names) if m else None
         if d:
             note('drift_scan', '%s predicted by the scan model differs from the real one: %s'
                  % ('post-scan content (states, positions, past hashes)' if killed else 'content after a sync that needed no parity write', d),
@@ -198,7 +209,10 @@ def sync_with_model(H, st0, lst, opts, nocopy=False, prehash=False, expect_fail=
         c_toks = w.ser_content(st1)
         use_toks = usable_toks(H, st1)
         base_toks = w.ser_base()
-    r = w.run('sync', *(list(opts) + extra)); H.ncmd += 1
+    r = w.run('sync', *(list(opts) + extra + list(real_opts))); H.ncmd += 1
+    if fs_after:
+        fs_toks = w.ser_fs()          # the data disks as the sync loop found them (changed after the scan by --test-run)
+        base_toks = w.ser_base()
     st2 = w.content()
     if st2 is None:
         return r
@@ -211,7 +225,7 @@ def sync_with_model(H, st0, lst, opts, nocopy=False, prehash=False, expect_fail=
     if m['aborted']:
         note('drift_abort', 'the scan model reaches an os_abort path of scan.c, the real sync exits %d' % r.rc, request=m['request'][:6000])
         return r
-    d = first_diff(m['final'], real_parsed(w, st2), w.names)
+    d = first_diff(forget_unusable_inodes(H, st0, m['final']), forget_unusable_inodes(H, st0, real_parsed(w, st2)), w.names)
     if d:
         note('drift_sync', 'content after `sync %s` predicted by scan model + sync loop model differs from the real one: %s' % (' '.join(list(opts) + extra), d),
              model=m['final'], real=real_parsed(w, st2), request=m['request'][:8000])
